@@ -28,7 +28,14 @@ RULE = ("seeded random programs: a main program with stack variables of all "
         "agreeing). Oracle 2 (reference machine): a shadow ownership map of "
         "the declared stack ranges; a store into a range owned by a variable "
         "that is not the running statement's target is an event. Oracle 0: "
-        "declared stack ranges must be pairwise disjoint. a case = one "
+        "declared stack ranges must be pairwise disjoint. Packet leg (every "
+        "fourth case, kernel): 2-5 groups of packet variables - plain fields "
+        "of all widths and byte orders next to each other, and bit fields "
+        "that partition or partly cover a byte - 1-4 writes from constants, "
+        "from a stack variable and from run-time expressions, with values "
+        "wider than the target; in the returned packet every variable that "
+        "was not written and every bit that belongs to no variable keeps "
+        "its value. a case = one "
         "program; non-trivial = >= 3 variables and >= 1 write statement")
 ASSUMPTIONS = ["variable addresses are taken from the descriptors' own "
                "fmt_addr outside any temporary allocation"]
